@@ -5,7 +5,7 @@
    the correspondence run only; its panics on ill-formed octets are a recorded finding (partial). *)
 From Coq Require Import List NArith Bool Arith.
 Import ListNotations.
-Require Import V.Regex V.Abnf V.Parse V.ParseProofs V.Factor V.BridgePaths V.C02Bridge V.C02Proofs V.Auth V.AuthProofs V.C03Bridge V.Cmp V.PctWf V.C19Proofs V.C19Auth V.PathSpec V.PathGrammar V.PathGrammarInst.
+Require Import V.Regex V.Abnf V.Parse V.ParseProofs V.Factor V.BridgePaths V.C02Bridge V.C02Proofs V.Auth V.AuthProofs V.C03Bridge V.Cmp V.PctWf V.C03Embed V.C19Proofs V.C19Auth V.PathSpec V.PathGrammar V.PathGrammarInst.
 Local Open Scope nat_scope.
 
 Theorem C19_octets_total_partial : forall s,
@@ -83,6 +83,29 @@ Print Assumptions C19_path_segments_URI.
 Theorem C19_path_segments_IRI : forall v, L (ipath I) v -> Forall (fun sg => exists sg', dec sg = Some sg') (segs v).
 Proof. intros v H. eapply Forall_impl; [|exact (segs_of_path_I v H)]. intros sg Hs. exact (dec_total_component _ _ chk_seg_I Hs). Qed.
 Print Assumptions C19_path_segments_IRI.
+
+(* and for the authority EMBEDDED in a reference (reference.authority().host() ...): the authority slice that the reference
+   decomposition returns decomposes in turn, and its user info and host have a total octet view *)
+Theorem C19_embedded_authority_URI : forall s, L (IRI_reference U U) s ->
+  forall au, oslice s (r_authority (reference_parts s 0)) = Some au ->
+  (forall u, oslice au (a_userinfo (authority_parts au)) = Some u -> exists u', dec u = Some u') /\
+  (exists h', dec (slice au (a_host (authority_parts au))) = Some h').
+Proof.
+  intros s H au Ea. destruct (embedded_uri s H) as (p & _ & (-> & E & _) & Hemb). rewrite E in Ea.
+  destruct (expected_slices p) as (_ & Sa & _). rewrite Sa in Ea.
+  destruct (Hemb au Ea) as (a & Hv & Hd). exact (authority_views_decode U chk_ui_U chk_host_U au a Hv Hd).
+Qed.
+Print Assumptions C19_embedded_authority_URI.
+Theorem C19_embedded_authority_IRI : forall s, L (IRI_reference I C02Bridge.P) s ->
+  forall au, oslice s (r_authority (reference_parts s 0)) = Some au ->
+  (forall u, oslice au (a_userinfo (authority_parts au)) = Some u -> exists u', dec u = Some u') /\
+  (exists h', dec (slice au (a_host (authority_parts au))) = Some h').
+Proof.
+  intros s H au Ea. destruct (embedded_iri s H) as (p & _ & (-> & E & _) & Hemb). rewrite E in Ea.
+  destruct (expected_slices p) as (_ & Sa & _). rewrite Sa in Ea.
+  destruct (Hemb au Ea) as (a & Hv & Hd). exact (authority_views_decode I chk_ui_I chk_host_I au a Hv Hd).
+Qed.
+Print Assumptions C19_embedded_authority_IRI.
 
 Example C19_example : dec [97;37;70;70;37;99;51;37;65;57]%N = Some [97;255;195;169]%N.   (* a%FF%c3%A9 *)
 Proof. vm_compute. reflexivity. Qed.
